@@ -70,7 +70,7 @@ Record script := mkScript {
   sc_flush : flush_result;
   sc_client_hs : option pyexn;
   sc_pipeline : list (bytes * list bytes);  (* intercepted mode: decrypted client chunk -> requests queued upstream *)
-  sc_pipeline_raises : list bytes;          (* chunks on which the request parser raises *)
+  sc_pipeline_raises : list bytes;          (* chunks on which the request parser raises HttpProtocolException *)
   sc_response_raises : list bytes           (* chunks on which the response parser raises *)
 }.
 
@@ -111,12 +111,12 @@ Definition sim_openssl (sc : script) (c : openssl_cmd) : run_result :=
 Fixpoint assoc_bytes {V} (k : bytes) (l : list (bytes * V)) : option V :=
   match l with [] => None | (k', v) :: t => if bytes_eqb k k' then Some v else assoc_bytes k t end.
 
-Definition sim_pipeline (sc : script) (_ : unit) (raw : bytes) : option (unit * list bytes) :=
-  if mem_bytes raw (sc_pipeline_raises sc) then None
-  else match assoc_bytes raw (sc_pipeline sc) with
-       | Some outs => Some (tt, outs)
-       | None => Some (tt, [])
-       end.
+Definition sim_pipeline (sc : script) (_ : unit) (raw : bytes) : (unit * list bytes) + pipe_failure :=
+  let outs := match assoc_bytes raw (sc_pipeline sc) with Some outs => outs | None => [] end in
+  (* a chunk on which the request parser raises HttpProtocolException; what had been queued for the
+     origin before (requests completed earlier in the same chunk) is the chunk's entry in sc_pipeline *)
+  if mem_bytes raw (sc_pipeline_raises sc) then inr (PipeProtocol outs)
+  else inl (tt, outs).
 Definition sim_response (sc : script) (_ : unit) (raw : bytes) : option unit :=
   if mem_bytes raw (sc_response_raises sc) then None else Some tt.
 
